@@ -1,6 +1,7 @@
 CONSTANTS NK = 3  NM = 2  MaxPasses = 2
           Shapes <- ShapesW  Coins <- CoinsQ  HashTypes <- HTq  Passes <- WidePasses
+CONSTANT Edits <- NoEdits
 SPECIFICATION Spec
 INVARIANTS TypeOK ValidIff SignedSane NeverValidWithFewKeys Confluence ValidDependsOnUnionOnly
-PROPERTIES Monotone ValidUntouched FrameKept UnaskedUntouched
+PROPERTIES Monotone ValidUntouched FrameKept UnaskedUntouched EditOnlyLoses
 CHECK_DEADLOCK FALSE
